@@ -90,6 +90,19 @@ def every_yielded_item_is_kept(ctx, clause, funcqual, what):
     f = ctx.p.func(funcqual)
     obs = []
     loops_ = [x for x in walk_own(f.node) if isinstance(x, ast.For)]
+    # the loop-free spellings keep every item by construction: <list>.extend(<producer call>), <list> += list(<producer call>),
+    # <list> = list(<producer call>) / [x for x in <producer call>] without a filter
+    whole = [x for x in walk_own(f.node) if isinstance(x, ast.Call) and isinstance(x.func, ast.Attribute) and x.func.attr in ("extend", "update")
+             and len(x.args) == 1 and isinstance(x.args[0], ast.Call)]
+    whole += [x for x in walk_own(f.node) if isinstance(x, (ast.Assign, ast.AugAssign)) and (
+        isinstance(x.value, ast.Call) and isinstance(x.value.func, ast.Name) and x.value.func.id in ("list", "tuple") and len(x.value.args) == 1
+        and isinstance(x.value.args[0], ast.Call)
+        or isinstance(x.value, ast.ListComp) and len(x.value.generators) == 1 and not x.value.generators[0].ifs
+        and isinstance(x.value.generators[0].iter, ast.Call) and isinstance(x.value.elt, ast.Name)
+        and isinstance(x.value.generators[0].target, ast.Name) and x.value.elt.id == x.value.generators[0].target.id)]
+    if not loops_ and whole:
+        return [Ob(clause, "R-LOOP", "R-LOOP|keeps-every-item|%s" % f.short, f.loc(whole[0]), True,
+                   "%s keeps every %s it is handed (the whole producer is taken over at once)" % (f.short, what))]
     if not loops_:
         raise AnalysisError("collecting loop not found in %s" % funcqual)
     for lp in loops_:
